@@ -2,6 +2,7 @@ package chainsim
 
 import (
 	"math/big"
+	"os"
 	"time"
 	"crypto/sha256"
 	"encoding/binary"
@@ -247,6 +248,12 @@ func (g *Gen) SignTx(t *refchain.Tx, coins []refchain.Coin, bad int) {
 					panic(er)
 				}
 				t.In[i].ScriptSig = append([]byte{}, gtx.TxIn[i].ScriptSig...)
+				if os.Getenv("VERIF_DEBUG_SIGN") != "" {
+					h := gtx.SignatureHash(coins[i].Script, i, 1)
+					ss := t.In[i].ScriptSig
+					sg := ss[1 : int(ss[0])]
+					fmt.Printf("SIGNDBG prev=%x:%d sighash=%x verify=%v priv=%x pub=%x sig=%x\n", t.In[i].Prev.Hash[:4], t.In[i].Prev.Idx, h, btc.EcdsaVerify(ky.pub, sg, h), ky.priv, ky.pub, sg)
+				}
 				if i == bad {
 					t.In[i].ScriptSig[10] ^= 0x55 // inside r
 				}
